@@ -1677,7 +1677,28 @@ def _set_union(it, s, *others):
     return SetV(arr, s.elem_sort)
 
 
-SET_METHODS = {'add': _set_add, 'union': _set_union}
+def _set_update(it, s, *others):
+    # s.update(iterable, ...): in-place union with concrete iterables / other sets
+    if it.term_mode:
+        raise Unsupported('mutation in term mode')
+    for o in others:
+        if isinstance(o, GenExp):
+            o = consume_comp(it, o, 'list')
+        if isinstance(o, SetV):
+            if isinstance(s, EmptySet) and s.elem_sort is None:
+                s._fix(o.elem_sort)
+            k = z3.Const('__e', s.elem_sort)
+            s.arr = z3.Lambda([k], z3.Or(s.arr[k], o.arr[k]))
+            it.emit(Ev('SetUpdate', obj=s))
+            continue
+        kind, items = iterate(it, o)
+        if kind != 'concrete':
+            raise Unsupported('set.update with a symbolic iterable')
+        for x in items:
+            SET_METHODS['add'](it, s, x)
+
+
+SET_METHODS = {'add': _set_add, 'union': _set_union, 'update': _set_update}
 
 
 def make_set(it, items, elem_sort=None):
@@ -2726,6 +2747,26 @@ def _b_int(it, v=0, *a):
     raise Unsupported('int(%r)' % (v,))
 
 
+def _b_float(it, v=0.0):
+    if isinstance(v, (int, float)) and not isinstance(v, bool):
+        return float(v)
+    if isinstance(v, bool):
+        return 1.0 if v else 0.0
+    if isinstance(v, str):
+        try:
+            return float(v)
+        except ValueError:
+            it.raise_('ValueError', 'could not convert string to float')
+    if isinstance(v, SV) and v.t.sort().eq(RealS):
+        return v
+    if isinstance(v, SV) and v.t.sort().kind() == z3.Z3_FLOATING_POINT_SORT:
+        return v
+    if isinstance(v, SV) and v.t.sort().eq(IntS):
+        # (mathematical: the rounding of integers beyond 2**53 is not modelled -- stated in the assumptions of the engine)
+        return wrap(z3.ToReal(v.t))
+    raise Unsupported('float(%r of sort %s)' % (v, v.t.sort() if isinstance(v, SV) else type(v).__name__))
+
+
 def _b_bool(it, v=False):
     t = it.truth(v)
     return t if isinstance(t, bool) else wrap(t)
@@ -2793,6 +2834,16 @@ def _b_next(it, src, *default):
         return src.attrs['call:__next__'](it, src, [], {})
     if isinstance(src, IterV):
         return src.next(it, default)
+    if isinstance(src, GenExp) and getattr(src, '_consumed', None) is None:
+        # next() of a fresh generator expression over a concrete source: its first element (the conditions of the later
+        # elements are evaluated too -- they are treated as pure, like everywhere in a comprehension)
+        r = consume_comp(it, src, 'list')
+        if isinstance(r, PyList):
+            src._consumed = IterV(items=list(r.items))
+            return src._consumed.next(it, default)
+        raise Unsupported('next() of a generator expression over a symbolic source')
+    if isinstance(src, GenExp):
+        return src._consumed.next(it, default)
     raise Unsupported('next(%r)' % (src,))
 
 
@@ -2976,10 +3027,11 @@ BUILTINS = {
     'open': _b_open,
     'len': _b_len, 'isinstance': _b_isinstance, 'callable': _b_callable, 'dict': _b_dict, 'list': _b_list,
     'tuple': _b_tuple, 'set': _b_set, 'any': _b_any, 'all': _b_all, 'enumerate': _b_enumerate, 'zip': _b_zip,
-    'str': _b_str, 'int': _b_int, 'bool': _b_bool, 'range': _b_range, 'print': _b_print, 'hasattr': _b_hasattr,
+    'str': _b_str, 'int': _b_int, 'float': _b_float, 'bool': _b_bool, 'range': _b_range, 'print': _b_print, 'hasattr': _b_hasattr,
     'getattr': _b_getattr, 'next': _b_next, 'iter': _b_iter, 'sorted': _b_sorted, 'min': _fold_minmax('min'),
     'max': _fold_minmax('max'), 'sum': _b_sum, 'super': _b_super, 'type': _b_type, 'filter': _b_filter,
     'map': _b_map, 'repr': lambda it, v: format_value(it, v, '', 114),
+    'format': lambda it, v, spec='': format_value(it, v, spec) if isinstance(spec, str) else _unsup('format() with a symbolic spec'),
     'id': lambda it, v: getattr(v, 'oid', 0),
 }
 TYPE_NAMES = {'str', 'int', 'bool', 'float', 'list', 'dict', 'tuple', 'set', 'object', 'bytes'}
